@@ -244,6 +244,62 @@ Definition run_iter_case (two : option (op2 * side)) (os : list op1) (cold_other
         (pulls, pre ++ out1 ++ out)
   end.
 
+(* ---------- a chain of single-input operators BETWEEN the producer and the two-input operator ----------
+   `iter.skip(2).merge(other).take(1)`: the producer's observer is the first node of `pre`; what `pre` lets through
+   arrives on the producer's input of the sink; `pre` answers is_finished with the sink's answer at its end.  (Added for
+   the cases in which the stream is ended from the side while an operator above the cut is still holding items back.) *)
+Fixpoint prod_put_all (k : sink) (es : list ev) : sink * list ev :=
+  match es with
+  | [] => (k, [])
+  | e :: r => let '(k1, o1) := prod_put k e in let '(k2, o2) := prod_put_all k1 r in (k2, o1 ++ o2)
+  end.
+
+Definition pre_fin (pre : list node) (k : sink) : bool := chain_fin pre (sink_fin k).
+
+Definition pre_put (pre : list node) (k : sink) (e : ev) : list node * sink * list ev :=
+  let '(pre', mid) := push pre [e] in
+  let '(k', out) := prod_put_all k mid in
+  (pre', k', out).
+
+Fixpoint iter_loop_pre (pre : list node) (k : sink) (items : list val) : list node * sink * nat * list ev :=
+  match items with
+  | [] => (pre, k, 0, [])
+  | v :: r =>
+      if pre_fin pre k then (pre, k, 0, [])
+      else
+        let '(pre1, k1, out) := pre_put pre k (Next v) in
+        let '(pre2, k2, pulls, out2) := iter_loop_pre pre1 k1 r in
+        (pre2, k2, S pulls, out ++ out2)
+  end.
+
+Definition iter_run_pre (pre : list node) (k : sink) (items : list val) : sink * nat * list ev :=
+  let '(pre1, k1, pulls, out) := iter_loop_pre pre k items in
+  let '(_, k2, out2) := pre_put pre1 k1 Done in
+  (k2, pulls, out ++ out2).
+
+(* as run_iter_case, with the chain `pre_ops` between the iterator and its input of the two-input operator *)
+Definition run_iter_case_pre (pre_ops : list op1) (two : option (op2 * side)) (os : list op1) (cold_other : list ev) (items : list val)
+  : nat * list ev :=
+  let '(k0, pre0) := sink_init two os in
+  let '(pre, started) := subscribe_chain pre_ops in
+  match two with
+  | None =>
+      let '(k0', o0) := prod_put_all k0 started in
+      let '(_, pulls, out) := iter_run_pre pre k0' items in (pulls, pre0 ++ o0 ++ out)
+  | Some (o, me) =>
+      if match first_side o, me with A, A | B, B => true | _, _ => false end
+      then
+        let '(k0', o0) := prod_put_all k0 started in
+        let '(k1, pulls, out) := iter_run_pre pre k0' items in
+        let '(_, out2) := put_all k1 (other me) (slot cold_other) in
+        (pulls, pre0 ++ o0 ++ out ++ out2)
+      else
+        let '(k1, out1) := put_all k0 (other me) (slot cold_other) in
+        let '(k1', o0) := prod_put_all k1 started in
+        let '(_, pulls, out) := iter_run_pre pre k1' items in
+        (pulls, pre0 ++ out1 ++ o0 ++ out)
+  end.
+
 (* `olive`: the observer handed to the other input has not been moved by a terminal of that input *)
 Fixpoint iv_run (s : ivst) (other_sd : side) (olive : bool) (sts : list rstim) : ivst * list ev :=
   match sts with
